@@ -295,3 +295,44 @@ def c19(ctx):
                 ctx.add_violation("C19: %s | probe %s | text: %r" % (v["what"], pr, o["text"][:300]), rp)
             else:
                 raise Infra("candidate did not reproduce: %s" % v)
+
+
+def c20(ctx):
+    import subprocess
+    from .core import REPO, goenv
+    ctx.build()
+    binp = os.path.join(ctx.work, "numscript")
+    p = subprocess.run(["go", "build", "-o", binp, "./internal/numscript"], cwd=REPO, env=goenv(), capture_output=True, text=True)
+    if p.returncode != 0:
+        raise Infra("building the numscript binary failed:\n" + p.stdout + p.stderr)
+    cfgs = gen_lines(ctx, "Cli", "Cli.cfg", "every channel configuration (which of --raw / file options / --stdin provides which field)")
+    cp = os.path.join(ctx.work, "clicfg.ndjson")
+    open(cp, "w").write("\n".join(cfgs) + "\n")
+    n = 600 if ctx.tier == "quick" else 3 * len(cfgs)
+    op = os.path.join(ctx.work, "cli_obs.ndjson")
+    s1 = ctx.vh_json(["cli-check", cp, ctx.seed, n, binp, os.path.join(ctx.work, "clitmp"), op], timeout=7200)
+    r = ctx.tlc_trace("CliTrace", "CliTrace.cfg", op, label="CliTrace judges binary against library")
+    ctx.cov["programs"] = s1["cases"]
+    ctx.cov["evaluations"] += s1["cases"]
+    ctx.cov["distinct_nontrivial"] += s1["nontrivial"]
+    ctx.cov["traces_validated_against_impl"] += s1["cases"]
+    ctx.cov["channel_configurations"] = len(cfgs)
+    ctx.cov["library_outcomes"] = s1["outcomes"]
+    ctx.cov["samples"] += (s1["samples"] or [])[:2]
+    ctx.cov["disagreements_checked"] = len(r["viols"])
+    if r["viols"]:
+        obs = read_ndjson(op)
+        seen = set()
+        for v in r["viols"]:
+            if v["what"] in seen or len(ctx.violations) >= 4:
+                continue
+            o = obs[v["id"]]
+            # confirm: run the very same command line again
+            e2 = subprocess.run([binp] + o["args"], input=o["stdin"], capture_output=True, text=True)
+            same = (e2.returncode == o["exit"]) and (o["mode"] == "check" or e2.stdout == o["stdout"])
+            if same and len(o["stdin"]) < 2000:
+                seen.add(v["what"])
+                ctx.add_violation("C20: %s | args: %s | stdin: %s | exit=%s stdout=%s | library: %s %s" % (v["what"], o["args"], o["stdin"][:300], o["exit"], o["stdout"][:300], o["libst"], o["libjson"][:300]),
+                                  dict(kind="cli", property="C20", case=o))
+            elif not same:
+                raise Infra("candidate did not reproduce: %s" % v)
